@@ -4,6 +4,8 @@
      <queries> <f0> <l0> <type> <universe> <defs>
    queries  subset of the letters M (v.) I (v[1].) K (v.zqk.) D (definition of d.<k> for every k of the universe)
             P (pairs key / pairs value / ipairs value loop variables)
+            F (d.<k>. for every k of the universe: a two-step prefix through a member; `*` when the workspace has
+               several ---@field k lines)
    f0 l0    file index and 1-based line of the `---@type` line of variable v (variable d: l0+3)
    type     one := single ('|' single)* ; single := atom ['[]'] ;
             atom := 'n'<num> | '(' one ')' | 't<' one ',' one '>' | 'te' | 'fn' | 'cs'
@@ -138,6 +140,11 @@ let model_obs (c : case) : string =
       add "PV" (mem_of (for_value tm sp1));
       add "IV" (mem_of (for_value tm sp2))
     end;
+    if has 'F' then
+      add "F" (match univ with [] -> "-" | _ ->
+        String.concat ";" (List.map (fun k ->
+          fname k ^ ":" ^ (if decl_count tm k >= 2 then "*"
+                           else labels (ok_or_crash (complete_at tm sd [Some k])))) univ));
     String.concat " " (List.rev !parts)
   with Crash -> "CRASH stack-overflow" | Mfault m -> "MODEL-FAULT " ^ m
 
@@ -162,6 +169,14 @@ let spec_obs (c : case) : string =
       add "PV" (mem_o (index_exec tm t f0));
       add "IV" (mem_o (index_exec tm t f0))
     end;
+    if has 'F' then
+      add "F" (match univ with [] -> "-" | _ ->
+        String.concat ";" (List.map (fun k ->
+          fname k ^ ":" ^ (if decl_count tm k >= 2 then "*"
+                           else match member_step_exec tm t k with
+                             | None -> raise (Mfault "spec-fuel")
+                             | Some (((ty', _), _) :: _) -> mem_t ty'        (* the one ---@field k line of the closure *)
+                             | Some [] -> mem_o (index_exec tm t f0))) univ)); (* no member k: element type *)
     String.concat " " (List.rev !parts)
   with Mfault m -> "SPEC-FAULT " ^ m
 
@@ -170,13 +185,12 @@ let classes_of (c : case) : string =
   let { q; f0; t; tm; _ } = c in
   let has ch = String.contains q ch in
   let cls = ref [] in
-  let needs_elem = has 'I' || has 'K' || has 'D' || has 'P' in
+  let needs_elem = has 'I' || has 'K' || has 'D' || has 'P' || has 'F' in
   if needs_elem && (cyclic_alias leaf_arr tm t f0 || cyclic_alias leaf_val tm t f0
                     || (has 'P' && cyclic_alias leaf_key tm t f0)) then cls := "cyclic_alias" :: !cls;
-  let sf ty = shadow_free tm ty f0 in
-  let elem_tys = (if needs_elem then (match index_exec tm t f0 with Some e -> [e] | None -> []) else [])
-                 @ (if has 'P' then (match pairs_key_exec tm t f0 with Some e -> [e] | None -> []) else []) in
-  if not (List.for_all sf (t :: elem_tys)) then cls := "shadowed_split" :: !cls;
+  (* the class shadowed_split (a multiply-declared name referred to from a file that declares it) is gone:
+     finding C15-split-class-shadowed is fixed, the model is the repaired lookup (c15_split_fixed = true) and
+     C15_members_full_proved has no guard, so a deviation from the closure is a violation, never a known class *)
   match !cls with [] -> "-" | l -> String.concat "," l
 
 let () = register "c15.members" (fun line ->
